@@ -409,9 +409,10 @@ class WebSocketApp:
                 else:
                     self._callback(self.on_open)
 
-                if self.sock is not sock:
+                if self.sock is not sock or not self.keep_running:
                     # close() was called from the on_open / on_reconnect callback,
                     # or from another thread while the connection was being set up
+                    # (possibly before it could see the socket it had to close)
                     sock.close()
                     return
 
